@@ -131,6 +131,7 @@ ObsGssvx(r, n, c) ==
     /\ IF c.lw = "query"
        THEN /\ r.info > n /\ r.needed > 0 /\ r.Xunch = 1      \* C14: estimate, no factorization
             /\ r.live1 = r.live0                              \* C17: a query retains nothing
+            /\ (lu.ok => r.permunch = 1 /\ r.Lunch = 1)       \* C14: "no other side effects": existing factors and their permutations survive
        ELSE /\ (c.fact = "FACTORED" =>                         \* C08: reuse modifies neither A, L, U nor the permutations
                   r.Aunch = 1 /\ r.permunch = 1 /\ r.Lunch = 1 /\ r.equed = mat.eq /\ r.live1 = r.live0)
             /\ (c.fact = "DOFACT" => r.equed = 0)
